@@ -202,3 +202,47 @@ func TestKVStandinIncludeCyclesErrorInOneFile(t *testing.T) {
 		}
 	}
 }
+
+// Wide two-level include graphs: the root includes `width` files (width = 8, 40, 100, 300), each of which - after a
+// body of 600 directives - includes one more file. A loader that limits the number of files in flight must not
+// wait for a slot while holding one. Every load must succeed within the deadline.
+func TestKVStandinIncludeCyclesWideTwoLevel(t *testing.T) {
+	for _, width := range []int{8, 40, 100, 300} {
+		dir := t.TempDir()
+		write := func(name, content string) string {
+			p := filepath.Join(dir, name)
+			if err := os.WriteFile(p, []byte(content), 0o644); err != nil {
+				t.Fatal(err)
+			}
+			return p
+		}
+		var root strings.Builder
+		for i := 0; i < width; i++ {
+			var body strings.Builder
+			for l := 0; l < 600; l++ {
+				fmt.Fprintf(&body, "2020-01-01 open Assets:Year%d:Account%d\n", i, l)
+			}
+			fmt.Fprintf(&body, "\ninclude \"detail%d.knut\"\n", i)
+			write(fmt.Sprintf("year%d.knut", i), body.String())
+			write(fmt.Sprintf("detail%d.knut", i), fmt.Sprintf("2020-01-02 open Assets:Detail%d\n", i))
+			fmt.Fprintf(&root, "include \"year%d.knut\"\n", i)
+		}
+		path := write("root.knut", root.String())
+		ctx, cancel := context.WithCancel(context.Background())
+		done := make(chan error, 1)
+		go func() {
+			_, err := FromPath(ctx, registry.New(), path)
+			done <- err
+		}()
+		select {
+		case err := <-done:
+			if err != nil {
+				t.Fatalf("root with %d includes of including files: loading a valid journal failed: %v", width, err)
+			}
+		case <-time.After(30 * time.Second):
+			cancel()
+			t.Fatalf("root with %d includes of including files: journal.FromPath did not return within 30s", width)
+		}
+		cancel()
+	}
+}
